@@ -113,6 +113,12 @@ def shapes(tier):
     out.append({'initial': INITIAL, 'deviations': d1, 'early': False,
                 'script': [('sub', 0, 'A'), (('when', 'daemon:getrawtransactions', 1), ('block', cbB)),
                            (('when', 'daemon:getrawtransactions', 1), ('poll',)), ('mp_add', 'm1', 1, 'A')]})
+    # a subscribed script loses its whole history: its only (mempool) transaction is evicted / the block with its only
+    # confirmed transaction is replaced - the status must go back to null
+    out.append({'initial': [cbA, cbA, cbA, cbA], 'deviations': d1,
+                'script': [('sub', 0, 'B'), ('mp_add', 'm1', 1, 'B'), ('mp_evict', 'm1')]})
+    out.append({'initial': [cbA, cbA, cbA, cbA], 'deviations': d1,
+                'script': [('sub', 0, 'B'), ('block', cbB), ('reorg', 1, [cbC, cbC])]})
     # a mempool transaction for the script arrives (and may be refreshed and notified) while the subscription's
     # history read is in flight
     out.append({'initial': INITIAL, 'deviations': d1, 'early': False,
@@ -142,7 +148,7 @@ KERNELS = [
                     'electrumx/server/block_processor.py:BlockProcessor.fetch_and_process_blocks', 'on_caught_up',
                     'advance_blocks', 'reorg_chain', 'electrumx/server/mempool.py:MemPool._refresh_hashes',
                     '_process_mempool'],
-           bounds='12 (quick) / 27 (thorough) scripted stories of 3..6 external events on a 4-block start; chain content '
+           bounds='14 (quick) / 31 (thorough) scripted stories of 3..6 external events on a 4-block start; chain content '
                   'concrete; interleaving: FIFO plus 1 (quick) / 2 within a 10..14-step window (thorough) deviations, '
                   'each one of: postpone a pending gate (daemon reply, thread job start, thread result delivery, block '
                   'fetch) for one full round of timers (poll + mempool refresh), fire a timer early, inject the next scripted event early',
